@@ -186,6 +186,15 @@ class Writer:
                 return Seq([('RAW', self.u(recv, env, mod) + '.encode()')])
             if fn == "b''.join" and len(e.args) == 1:
                 g = e.args[0]
+                if isinstance(g, ast.Name) and isinstance(env.get(g.id), (ast.List, ast.Tuple)):
+                    g = env[g.id]
+                if isinstance(g, (ast.List, ast.Tuple)):
+                    # a literal list of pieces: their concatenation
+                    out = Seq()
+                    for el in g.elts:
+                        piece = self.expr(el, env, mod)
+                        out += piece if piece is not None else Seq([('RAW', self.u(el, env, mod))])
+                    return out
                 if isinstance(g, (ast.GeneratorExp, ast.ListComp)) and len(g.generators) == 1 and not g.generators[0].ifs:
                     gen = g.generators[0]
                     e2 = dict(env)
